@@ -892,6 +892,6 @@ func main() {
 		Run:         run,
 		MinEvals:    1500,
 		MinDistinct: 80,
-		Require:     []string{"boundaries_observed_on_both_sides", "boundary_points_as_predicted", "after_policy_median_equal_to_lock_time_visited", "in_block_spends_of_immature_outputs_rejected_at_the_fix_height"},
+		Require:     []string{"maturity_delay_edge_cases", "far_apart_median_cases", "boundaries_observed_on_both_sides", "boundary_points_as_predicted", "after_policy_median_equal_to_lock_time_visited", "in_block_spends_of_immature_outputs_rejected_at_the_fix_height"},
 	})
 }
